@@ -342,7 +342,7 @@ package vm
 //@   deterministic[C01.no_node_local_source]
 //@   requires sdbInv(d)
 //@   modifies d.currentCtx, d.snapshots, contents(d.snapshots)
-//@   ensures[C03.snap_id] result == old(len(d.snapshots)) - 1 && len(d.snapshots) == old(len(d.snapshots)) + 1
+//@   ensures[C03.snap_id,C08.working_layer_only] result == old(len(d.snapshots)) - 1 && len(d.snapshots) == old(len(d.snapshots)) + 1
 //@   ensures[C03.snap_older_records] forall i int :: (0 <= i && i < old(len(d.snapshots))) ==> d.snapshots[i] == old(d.snapshots[i])
 //@   ensures[C03.snap_record_touched] trackerEq(d.snapshots[result + 1].touched, d.touched) && trackerEq(d.snapshots[result + 1].selfDestructed, d.selfDestructed)
 //@   ensures[C03.snap_record_al] alEq(d.snapshots[result + 1].accessList, d.accessList)
@@ -368,7 +368,7 @@ package vm
 //@   deterministic[C01.no_node_local_source]
 //@   requires sdbInv(d)
 //@   modifies d.currentCtx, d.touched, d.refund, d.selfDestructed, d.accessList, d.logs, d.transientStorage, d.snapshots, contents(d.snapshots)
-//@   ensures[C03.revert_len] len(d.snapshots) == id + 2
+//@   ensures[C03.revert_len,C08.working_layer_only] len(d.snapshots) == id + 2
 //@   ensures[C03.revert_older_records] forall i int :: (0 <= i && i <= id) ==> d.snapshots[i] == old(d.snapshots[i])
 //@   ensures[C03.revert_record_kept] d.snapshots[id + 1].id == id && d.snapshots[id + 1].touched == old(d.snapshots[id + 1].touched) && d.snapshots[id + 1].selfDestructed == old(d.snapshots[id + 1].selfDestructed) && d.snapshots[id + 1].accessList == old(d.snapshots[id + 1].accessList) && d.snapshots[id + 1].logs == old(d.snapshots[id + 1].logs) && d.snapshots[id + 1].transientStorage == old(d.snapshots[id + 1].transientStorage) && d.snapshots[id + 1].refund == old(d.snapshots[id + 1].refund)
 //@   ensures[C03.revert_view] d.currentCtx == d.snapshots[id + 1].snapshotCtx && viewEq(layer(d.currentCtx), old(layer(d.snapshots[id].snapshotCtx))) && lyrParent(layer(d.currentCtx)) == old(layer(d.snapshots[id].snapshotCtx))
@@ -484,7 +484,7 @@ package vm
 //@   deterministic[C01.no_node_local_source]
 //@   requires d != nil && d.touched != nil && d.bankKeeper != nil && b != nil
 //@   modifies contents(d.touched), bankBal[layer(d.currentCtx)], bankSupply[layer(d.currentCtx)], authVersion[layer(d.currentCtx)], evlog[payload(d.currentCtx.EventManager())]
-//@   ensures[C03.mut_touched] forall a common.Address :: (a in d.touched) == (a == address || old(a in d.touched))
+//@   ensures[C03.mut_touched,C08.working_layer_only] forall a common.Address :: (a in d.touched) == (a == address || old(a in d.touched))
 //@   ensures[C04.add_balance] forall a bytes, den string :: bankBal[layer(d.currentCtx)][a][den] == old(bankBal[layer(d.currentCtx)][a][den]) + ((a == addrBytes(address) && den == d.evmDenom) ? bigval[b] : 0)
 //@   ensures[C04.add_supply] forall den string :: bankSupply[layer(d.currentCtx)][den] == old(bankSupply[layer(d.currentCtx)][den]) + (den == d.evmDenom ? bigval[b] : 0)
 //@   ensures[C02.sub_add_balance,C04.sub_add_balance] (forall a common.Address :: absBal(d, a) == old(absBal(d, a)) + (a == address ? bigval[b] : 0)) && absSupply(d) == old(absSupply(d)) + bigval[b] && (forall den string :: den != d.evmDenom ==> absSupplyX(d, den) == old(absSupplyX(d, den))) && (forall a common.Address :: absNonce(d, a) == old(absNonce(d, a)))
@@ -494,7 +494,7 @@ package vm
 //@   deterministic[C01.no_node_local_source]
 //@   requires d != nil && d.touched != nil && d.bankKeeper != nil && b != nil
 //@   modifies contents(d.touched), bankBal[layer(d.currentCtx)], bankSupply[layer(d.currentCtx)], authVersion[layer(d.currentCtx)], evlog[payload(d.currentCtx.EventManager())]
-//@   ensures[C03.mut_touched] forall a common.Address :: (a in d.touched) == (a == address || old(a in d.touched))
+//@   ensures[C03.mut_touched,C08.working_layer_only] forall a common.Address :: (a in d.touched) == (a == address || old(a in d.touched))
 //@   ensures[C04.sub_balance] forall a bytes, den string :: bankBal[layer(d.currentCtx)][a][den] == old(bankBal[layer(d.currentCtx)][a][den]) - ((a == addrBytes(address) && den == d.evmDenom) ? bigval[b] : 0)
 //@   ensures[C04.sub_supply] forall den string :: bankSupply[layer(d.currentCtx)][den] == old(bankSupply[layer(d.currentCtx)][den]) - (den == d.evmDenom ? bigval[b] : 0)
 //@   ensures[C02.sub_sub_balance,C04.sub_sub_balance] (forall a common.Address :: absBal(d, a) == old(absBal(d, a)) - (a == address ? bigval[b] : 0)) && absSupply(d) == old(absSupply(d)) - bigval[b] && (forall den string :: den != d.evmDenom ==> absSupplyX(d, den) == old(absSupplyX(d, den))) && (forall a common.Address :: absNonce(d, a) == old(absNonce(d, a)))
@@ -510,14 +510,14 @@ package vm
 //@   deterministic[C01.no_node_local_source]
 //@   requires d != nil
 //@   modifies acctExists[layer(d.currentCtx)], acctSeq[layer(d.currentCtx)], authVersion[layer(d.currentCtx)]
-//@   ensures[C03.mut_create_if_missing] acctExists[layer(d.currentCtx)] == old(acctExists[layer(d.currentCtx)])[addrBytes(address) := true] && acctSeq[layer(d.currentCtx)] == old(acctSeq[layer(d.currentCtx)])
+//@   ensures[C03.mut_create_if_missing,C08.working_layer_only] acctExists[layer(d.currentCtx)] == old(acctExists[layer(d.currentCtx)])[addrBytes(address) := true] && acctSeq[layer(d.currentCtx)] == old(acctSeq[layer(d.currentCtx)])
 //@   panics never
 
 //@ func (d *cStateDb) SetNonce(address common.Address, n uint64)
 //@   deterministic[C01.no_node_local_source]
 //@   requires d != nil && d.touched != nil
 //@   modifies contents(d.touched), acctExists[layer(d.currentCtx)], acctSeq[layer(d.currentCtx)], authVersion[layer(d.currentCtx)], accObjSeq
-//@   ensures[C03.mut_touched] forall a common.Address :: (a in d.touched) == (a == address || old(a in d.touched))
+//@   ensures[C03.mut_touched,C08.working_layer_only] forall a common.Address :: (a in d.touched) == (a == address || old(a in d.touched))
 //@   ensures[C03.mut_set_nonce,C06.set_nonce] acctSeq[layer(d.currentCtx)] == old(acctSeq[layer(d.currentCtx)])[addrBytes(address) := n] && acctExists[layer(d.currentCtx)] == old(acctExists[layer(d.currentCtx)])[addrBytes(address) := true]
 //@   ensures[C02.sub_set_nonce,C06.sub_set_nonce] forall a common.Address :: absNonce(d, a) == (a == address ? n : old(absNonce(d, a)))
 //@   panics never
@@ -526,14 +526,14 @@ package vm
 //@   deterministic[C01.no_node_local_source]
 //@   requires d != nil && d.touched != nil && d.evmKeeper != nil
 //@   modifies contents(d.touched), acctExists[layer(d.currentCtx)], acctSeq[layer(d.currentCtx)], authVersion[layer(d.currentCtx)], evmCodeHash[layer(d.currentCtx)], evmCodeVer[layer(d.currentCtx)]
-//@   ensures[C03.mut_touched] forall a common.Address :: (a in d.touched) == (a == address || old(a in d.touched))
+//@   ensures[C03.mut_touched,C08.working_layer_only] forall a common.Address :: (a in d.touched) == (a == address || old(a in d.touched))
 //@   panics any
 
 //@ func (d *cStateDb) SetState(address common.Address, key common.Hash, value common.Hash)
 //@   deterministic[C01.no_node_local_source]
 //@   requires d != nil && d.touched != nil && d.evmKeeper != nil
 //@   modifies contents(d.touched), acctExists[layer(d.currentCtx)], acctSeq[layer(d.currentCtx)], authVersion[layer(d.currentCtx)], evmStorage[layer(d.currentCtx)]
-//@   ensures[C03.mut_touched] forall a common.Address :: (a in d.touched) == (a == address || old(a in d.touched))
+//@   ensures[C03.mut_touched,C08.working_layer_only] forall a common.Address :: (a in d.touched) == (a == address || old(a in d.touched))
 //@   ensures[C03.mut_set_state] forall a common.Address :: a != address ==> evmStorage[layer(d.currentCtx)][a] == old(evmStorage[layer(d.currentCtx)][a])
 //@   panics any
 
@@ -652,7 +652,7 @@ package vm
 //@   deterministic[C01.no_node_local_source]
 //@   requires d != nil && d.bankKeeper != nil && d.evmKeeper != nil
 //@   modifies acctExists[layer(d.currentCtx)], acctSeq[layer(d.currentCtx)], authVersion[layer(d.currentCtx)], acctTag[layer(d.currentCtx)], acctVestEnd[layer(d.currentCtx)], bankBal[layer(d.currentCtx)], bankSupply[layer(d.currentCtx)], evlog[payload(d.currentCtx.EventManager())], evmCodeHash[layer(d.currentCtx)], evmStorage[layer(d.currentCtx)]
-//@   ensures[C15.destroy_module_refused] !old(acctExists[layer(d.currentCtx)][addrBytes(addr)] && implements(acctTag[layer(d.currentCtx)][addrBytes(addr)], type(sdk.ModuleAccountI)))
+//@   ensures[C15.destroy_module_refused,C08.working_layer_only] !old(acctExists[layer(d.currentCtx)][addrBytes(addr)] && implements(acctTag[layer(d.currentCtx)][addrBytes(addr)], type(sdk.ModuleAccountI)))
 //@   ensures[C15.destroy_protected_refused] !old(acctProtectedAt(layer(d.currentCtx), addrBytes(addr), hdrTimeUnix(hdr(d.currentCtx))))
 //@   ensures[C15.destroy_account_record] !acctExists[layer(d.currentCtx)][addrBytes(addr)] && acctSeq[layer(d.currentCtx)][addrBytes(addr)] == 0 && (forall a bytes :: a != addrBytes(addr) ==> (acctExists[layer(d.currentCtx)][a] == old(acctExists[layer(d.currentCtx)][a]) && acctSeq[layer(d.currentCtx)][a] == old(acctSeq[layer(d.currentCtx)][a]) && acctTag[layer(d.currentCtx)][a] == old(acctTag[layer(d.currentCtx)][a]) && acctVestEnd[layer(d.currentCtx)][a] == old(acctVestEnd[layer(d.currentCtx)][a])))
 //@   ensures[C15.destroy_balances] forall a bytes, den string :: bankBal[layer(d.currentCtx)][a][den] == (a == addrBytes(addr) ? 0 : old(bankBal[layer(d.currentCtx)][a][den]))
@@ -669,7 +669,7 @@ package vm
 //@   deterministic[C01.no_node_local_source]
 //@   requires d != nil && d.touched != nil && d.bankKeeper != nil && d.evmKeeper != nil
 //@   modifies contents(d.touched), acctExists[layer(d.currentCtx)], acctSeq[layer(d.currentCtx)], authVersion[layer(d.currentCtx)], acctTag[layer(d.currentCtx)], acctVestEnd[layer(d.currentCtx)], bankBal[layer(d.currentCtx)], bankSupply[layer(d.currentCtx)], evlog[payload(d.currentCtx.EventManager())], evmCodeHash[layer(d.currentCtx)], evmStorage[layer(d.currentCtx)]
-//@   ensures[C03.mut_touched] forall a common.Address :: (a in d.touched) == (a == address || old(a in d.touched))
+//@   ensures[C03.mut_touched,C08.working_layer_only] forall a common.Address :: (a in d.touched) == (a == address || old(a in d.touched))
 //@   ensures[C15.create_module_refused] !old(acctExists[layer(d.currentCtx)][addrBytes(address)] && implements(acctTag[layer(d.currentCtx)][addrBytes(address)], type(sdk.ModuleAccountI)))
 //@   ensures[C15.create_protected_refused] !old(acctProtectedAt(layer(d.currentCtx), addrBytes(address), hdrTimeUnix(hdr(d.currentCtx))))
 //@   ensures[C15.create_fresh_account] acctExists[layer(d.currentCtx)][addrBytes(address)] && acctSeq[layer(d.currentCtx)][addrBytes(address)] == 0 && evmCodeHash[layer(d.currentCtx)][addrBytes(address)] == zero(type(common.Hash))
@@ -683,7 +683,7 @@ package vm
 //@   deterministic[C01.no_node_local_source]
 //@   requires d != nil && d.touched != nil && d.selfDestructed != nil && d.touched != d.selfDestructed && d.bankKeeper != nil
 //@   modifies contents(d.touched), contents(d.selfDestructed), bankBal[layer(d.currentCtx)], bankSupply[layer(d.currentCtx)], authVersion[layer(d.currentCtx)], evlog[payload(d.currentCtx.EventManager())]
-//@   ensures[C03.mut_touched] forall a common.Address :: (a in d.touched) == (a == address || old(a in d.touched))
+//@   ensures[C03.mut_touched,C08.working_layer_only] forall a common.Address :: (a in d.touched) == (a == address || old(a in d.touched))
 //@   ensures[C15.suicide_marks_existing_only] result == old(acctExists[layer(d.currentCtx)][addrBytes(address)]) && (forall a common.Address :: (a in d.selfDestructed) == ((result && a == address) || old(a in d.selfDestructed)))
 //@   ensures[C04.suicide_burns_balance] forall a bytes, den string :: bankBal[layer(d.currentCtx)][a][den] == ((result && a == addrBytes(address) && den == d.evmDenom) ? 0 : old(bankBal[layer(d.currentCtx)][a][den]))
 //@   ensures[C04.suicide_supply] forall den string :: bankSupply[layer(d.currentCtx)][den] == old(bankSupply[layer(d.currentCtx)][den]) - ((result && den == d.evmDenom) ? old(bankBal[layer(d.currentCtx)][addrBytes(address)][den]) : 0)
@@ -694,7 +694,7 @@ package vm
 //@   deterministic[C01.no_node_local_source]
 //@   requires d != nil && d.touched != nil && d.selfDestructed != nil && d.touched != d.selfDestructed && d.bankKeeper != nil
 //@   modifies contents(d.touched), contents(d.selfDestructed), bankBal[layer(d.currentCtx)], bankSupply[layer(d.currentCtx)], authVersion[layer(d.currentCtx)], evlog[payload(d.currentCtx.EventManager())]
-//@   ensures[C15.sd6780_marks_existing_only] forall a common.Address :: (a in d.selfDestructed) ==> (old(a in d.selfDestructed) || (a == address && old(acctExists[layer(d.currentCtx)][addrBytes(address)])))
+//@   ensures[C15.sd6780_marks_existing_only,C08.working_layer_only] forall a common.Address :: (a in d.selfDestructed) ==> (old(a in d.selfDestructed) || (a == address && old(acctExists[layer(d.currentCtx)][addrBytes(address)])))
 //@   ensures[C15.sd6780_committed_accounts_kept] (!old(acctExists[layer(d.currentCtx)][addrBytes(address)])) ==> ((forall a common.Address :: (a in d.selfDestructed) == old(a in d.selfDestructed)) && bankBal[layer(d.currentCtx)] == old(bankBal[layer(d.currentCtx)]) && bankSupply[layer(d.currentCtx)] == old(bankSupply[layer(d.currentCtx)]))
 //@   ensures[C04.sd6780_supply] forall den string :: bankSupply[layer(d.currentCtx)][den] <= old(bankSupply[layer(d.currentCtx)][den])
 //@   panics any
